@@ -418,7 +418,7 @@ def _work(args):
         obs = scenes.run_scene(rows, prms, index=index, route=route, kernel_fuzz=fuzz, frame=frame)
     except Exception as e:
         return {'meta': meta, 'harness_error': f'{type(e).__name__}: {e}'}
-    out = {'meta': meta, 'exc': obs['exc'], 'stage': obs['stage'], 'exc_msg': obs.get('exc_msg'), 'eff_mismatch': obs.get('eff_mismatch'),
+    out = {'meta': meta, 'exc': obs['exc'], 'stage': obs['stage'], 'exc_msg': obs.get('exc_msg'), 'eff_mismatch': obs.get('eff_mismatch'), 'impure_queries': obs.get('impure_queries'),
            'stats': dict(scenes.scene_stats(obs), **{'index_' + ikind: 1, 'route_' + route: 1, 'numpy_typed_prms': int(bool(meta.get('numpy_typed_prms'))),
                                                        'mixture_answers_distorted': int(fuzz is not None and not fuzz.endswith('+cluster')),
                                                        'clustering_answers_distorted': int(fuzz is not None and fuzz.endswith('+cluster')),
@@ -476,6 +476,8 @@ def run_pipeline(chk, prop, n_scenes, families=FAMILIES, crash_is_violation=Fals
                          'messages': res.get('msgs'), 'raised': res['exc']} if task[1] < 1 else None)
         if res['missing']:
             chk.mismatch('wrapper targets missing', str(res['missing']), replay)
+        if res.get('impure_queries'):
+            chk.mismatch('reading messages / tables / properties leaves the chunk as it was', f"changed by the queries: {res['impure_queries']}", replay)
         if res.get('eff_mismatch'):
             chk.mismatch('chunk.prms = the parameters that were requested (global at construction updated with the per-call values)',
                          f"route {res['meta'].get('route')}: differs in {res['eff_mismatch']}", replay)
